@@ -16,6 +16,8 @@ import (
 
 	"seehuhn.de/go/sfnt"
 	"seehuhn.de/go/sfnt/glyph"
+	"seehuhn.de/go/sfnt/opentype/classdef"
+	"seehuhn.de/go/sfnt/opentype/coverage"
 	"seehuhn.de/go/sfnt/opentype/gtab"
 	"seehuhn.de/go/sfnt/opentype/gtab/builder"
 	"verif/harness/fontcmp"
@@ -276,6 +278,76 @@ func deepen(t *rapid.T, f *sfnt.Font) {
 	}
 }
 
+// chainify adds chaining context lookups in the three formats (GSUB 6.1, 6.2,
+// 6.3) to the font's GSUB table: two or three backtrack glyphs that do not read
+// the same in both directions, an input glyph, a lookahead glyph, one nested
+// single substitution.  Backtrack sequences are stored in reverse order; code
+// that shows or matches them in logical order has to turn them round.
+func chainify(t *rapid.T, f *sfnt.Font) bool {
+	n := f.NumGlyphs()
+	if n < 5 {
+		return false
+	}
+	if f.Gsub == nil {
+		f.Gsub = &gtab.Info{ScriptList: gtab.ScriptListInfo{}}
+	}
+	info := f.Gsub
+	g := func(label string) glyph.ID { return glyph.ID(rapid.IntRange(1, n-1).Draw(t, label)) }
+	base := gtab.LookupIndex(len(info.LookupList))
+	target := base + 3
+	next := make([]glyph.ID, n)
+	all := make([]glyph.ID, n)
+	for i := range all {
+		all[i], next[i] = glyph.ID(i), glyph.ID((i+1)%n)
+	}
+	back := []glyph.ID{g("back0"), g("back1")}
+	for back[1] == back[0] {
+		back[1] = glyph.ID(int(back[1])%(n-1) + 1)
+	}
+	if rapid.Bool().Draw(t, "back3") {
+		back = append(back, g("back2"))
+	}
+	first, ahead := g("chainFirst"), g("chainAhead")
+	classes := classdef.Table{}
+	for i := 1; i < n; i++ {
+		classes[glyph.ID(i)] = uint16(i)
+	}
+	cls := func(gg []glyph.ID) []uint16 {
+		res := make([]uint16, len(gg))
+		for i, x := range gg {
+			res[i] = uint16(x)
+		}
+		return res
+	}
+	act := []gtab.SeqLookup{{SequenceIndex: 0, LookupListIndex: target}}
+	rules2 := make([][]*gtab.ChainedClassSeqRule, n)
+	rules2[first] = []*gtab.ChainedClassSeqRule{{Backtrack: cls(back), Lookahead: cls([]glyph.ID{ahead}), Actions: act}}
+	var back3 []coverage.Set
+	for _, x := range back {
+		back3 = append(back3, coverage.Set{x: true})
+	}
+	info.LookupList = append(info.LookupList,
+		&gtab.LookupTable{Meta: &gtab.LookupMetaInfo{LookupType: 6}, Subtables: []gtab.Subtable{
+			&gtab.ChainedSeqContext1{Cov: lookups.CovTable([]glyph.ID{first}), Rules: [][]*gtab.ChainedSeqRule{{{Backtrack: back, Lookahead: []glyph.ID{ahead}, Actions: act}}}}}},
+		&gtab.LookupTable{Meta: &gtab.LookupMetaInfo{LookupType: 6}, Subtables: []gtab.Subtable{
+			&gtab.ChainedSeqContext2{Cov: lookups.CovTable([]glyph.ID{first}), Backtrack: classes, Input: classes, Lookahead: classes, Rules: rules2}}},
+		&gtab.LookupTable{Meta: &gtab.LookupMetaInfo{LookupType: 6}, Subtables: []gtab.Subtable{
+			&gtab.ChainedSeqContext3{Backtrack: back3, Input: []coverage.Set{{first: true}}, Lookahead: []coverage.Set{{ahead: true}}, Actions: act}}},
+		&gtab.LookupTable{Meta: &gtab.LookupMetaInfo{LookupType: 1}, Subtables: []gtab.Subtable{
+			&gtab.Gsub1_2{Cov: lookups.CovTable(all), SubstituteGlyphIDs: next}}},
+	)
+	if len(info.FeatureList) == 0 {
+		info.FeatureList = gtab.FeatureListInfo{{Tag: "liga"}}
+	}
+	for _, ft := range info.FeatureList {
+		ft.Lookups = append(ft.Lookups, base, base+1, base+2)
+	}
+	if len(info.ScriptList) == 0 {
+		info.ScriptList[language.Und] = &gtab.Features{Required: 0}
+	}
+	return true
+}
+
 func TestC16Schedules(t *testing.T) { schedules(t, false) }
 
 // TestC16ColdStart runs the concurrent phase BEFORE the sequential reference
@@ -305,6 +377,9 @@ func schedules(t *testing.T, cold bool) {
 		f := c.Font
 		if rapid.Bool().Draw(t, "mixPairRecords") && genfont.MixPairRecords(t, f) {
 			c.Labels = append(c.Labels, "pair-records-mixed")
+		}
+		if layout == genfont.LayoutAll && rapid.IntRange(0, 2).Draw(t, "chainContexts") == 0 && chainify(t, f) {
+			c.Labels = append(c.Labels, "chaining-contexts-with-backtrack")
 		}
 		deep := false
 		if layout == genfont.LayoutAll && rapid.IntRange(0, 2).Draw(t, "deepNesting") == 0 {
